@@ -2,10 +2,13 @@
 
 package cmd
 
+import "strings"
+
 func init() {
 	vHarnesses["VerifC11Update"] = VerifC11Update
 	vHarnesses["VerifC12ReadBack"] = VerifC12ReadBack
 	vHarnesses["VerifC12SecondUpdate"] = VerifC12SecondUpdate
+	vHarnesses["VerifC12CompareAll"] = VerifC12CompareAll
 }
 
 // operandOK states what C02 guarantees about a generated regex: printable ASCII (by construction of
@@ -84,4 +87,42 @@ func VerifC12SecondUpdate() {
 	updateRegex(path, "932100", 0, r)
 	vReach("after-update")
 	vAssert(vReadFile(path) == before+head+r+rest, "C12 a second update with the same regex is a no-op")
+}
+
+// C12: compare --all (GitHub mode) fails exactly when the stored operand of SOME rule differs from its generated regex,
+// wherever the stale rule sits in the walk; in text mode every rule is reported and the stale one is reported as changed.
+func VerifC12CompareAll() {
+	dir := vTempDir()
+	ctxt := c08Context(dir)
+	stale := vParam("stale") // index of the stale rule (3: none)
+	ids := []string{"932100", "932101", "932102"}
+	gen := []string{"ra", "rb", "rc"}
+	rules := ""
+	for i := 0; i < 3; i++ {
+		op := gen[i]
+		if i == stale {
+			op = "old"
+		}
+		rules += "SecRule ARGS \"@rx " + op + "\" \\\n    \"id:" + ids[i] + ",\\\n    deny\"\n\n"
+		vWriteFile(dir+"/regex-assembly/"+ids[i]+".ra", gen[i]+"\n")
+	}
+	vWriteFile(dir+"/rules/REQUEST-932-APPLICATION-ATTACK-RCE.conf", rules)
+	github := vParam("github") != 0
+	if github {
+		rootValues.output = gitHub
+	}
+	var err error
+	out := vCaptureStdout(func() { err = performCompare(true, ctxt) })
+	vReach("compared")
+	if github {
+		vAssert((err != nil) == (stale < 3), "C12 compare --all -o github fails exactly when some stored operand differs from its generated regex")
+	} else {
+		for i := 0; i < 3; i++ {
+			want := "Regex of " + ids[i] + " has not changed"
+			if i == stale {
+				want = "Regex of " + ids[i] + " has changed!"
+			}
+			vAssert(strings.Contains(out, want), "C12 compare --all reports every rule, the stale one as changed")
+		}
+	}
 }
